@@ -13,15 +13,18 @@ import (
 	"encoding/json"
 	"errors"
 	"fmt"
+	"regexp"
 	"strings"
 	"sync"
 	"testing"
 	"time"
 
 	"github.com/emersion/go-sasl"
+	"github.com/foxcpp/maddy/framework/config"
 	"github.com/foxcpp/maddy/framework/log"
 	"github.com/foxcpp/maddy/framework/module"
 	"github.com/foxcpp/maddy/internal/authz"
+	"github.com/foxcpp/maddy/internal/table"
 	"github.com/foxcpp/maddy/internal/verif/vx"
 )
 
@@ -380,6 +383,79 @@ func TestVerifC14Quoted(t *testing.T) {
 						r.Outcome("refused")
 					}
 				}
+			}
+		}
+	}
+}
+
+// TestVerifC14RegexpMap (part "regexpmap"): auth_map backed by the real table.regexp
+// (expression "(.+)@example\.org", replacement "$1", full_match yes / no). The reference
+// maps a user name to the expansion of the replacement for the first match and nothing
+// else (text outside the match does not belong to the mapped name), then looks the
+// account up in the credential map.
+func TestVerifC14RegexpMap(t *testing.T) {
+	r := vx.Start("C14", "regexpmap")
+	defer r.Finish()
+	r.Rule("real pass_table (accounts alice, bob, alice.evil, bob-x with distinct passwords) behind the real SASL layer whose auth_map is a real table.regexp \"(.+)@example\\.org\" -> \"$1\" with full_match {yes, no}; user names {alice@example.org, bob@example.org, alice@example.org.evil, bob@example.org-x, x-alice@example.org, alice, carol@example.org} x every password x {PLAIN, LOGIN} under normalisation noop; reference: the mapped name is the first capture group of the first match (whole-string match when full_match is on), no match = refused; an attempt succeeds iff the mapped account exists with that password and the identity reported is the mapped name")
+	if r.Replaying() {
+		return
+	}
+	ref := map[string]string{"alice": "pw-alice", "bob": "pw-bob", "alice.evil": "pw-evil", "bob-x": "pw-bobx", "x-alice": "pw-xalice"}
+	var hist []c14Op
+	for _, n := range []string{"alice", "bob", "alice.evil", "bob-x", "x-alice"} {
+		hist = append(hist, c14Op{"create-bcrypt", n, ref[n]})
+	}
+	a, _, err := c14Build(hist)
+	if err != nil {
+		r.HarnessError(err.Error())
+		return
+	}
+	users := []string{"alice@example.org", "bob@example.org", "alice@example.org.evil", "bob@example.org-x", "x-alice@example.org", "alice", "carol@example.org"}
+	pws := []string{"pw-alice", "pw-bob", "pw-evil", "pw-bobx", "pw-xalice", "wrong"}
+	for _, full := range []string{"yes", "no"} {
+		mod, err := table.NewRegexp("table.regexp", "", nil, []string{`(.+)@example\.org`, "$1"})
+		if err != nil {
+			r.HarnessError(err.Error())
+			return
+		}
+		tbl := mod.(*table.Regexp)
+		if err := tbl.Init(config.NewMap(nil, config.Node{Children: []config.Node{{Name: "full_match", Args: []string{full}}}})); err != nil {
+			r.HarnessError(err.Error())
+			return
+		}
+		expr := `(.+)@example\.org`
+		if full == "yes" {
+			expr = "^(?:" + expr + ")$"
+		}
+		re := regexp.MustCompile(expr)
+		s := SASLAuth{Log: log.Logger{Out: log.NopOutput{}}, EnableLogin: true, Plain: []module.PlainAuth{a}, AuthNormalize: authz.NormalizeFuncs["noop"], AuthMap: tbl}
+		for _, u := range users {
+			mapped, ok := "", false
+			if m := re.FindStringSubmatch(u); m != nil {
+				mapped, ok = m[1], true
+			}
+			for _, p := range pws {
+				want := ok && ref[mapped] == p
+				c := map[string]any{"full_match": full, "user": u, "password": p, "mapped_to": mapped}
+				r.Eval()
+				r.Nontrivial(vx.JSON(c))
+				var idP, idL string
+				gotP, _ := c14RunSASL(s.CreateSASL(sasl.Plain, nil, func(id string, d ContextData) error { idP = id; return nil }), []byte("\x00"+u+"\x00"+p))
+				gotL, _ := c14RunSASL(s.CreateSASL(sasl.Login, nil, func(id string, d ContextData) error { idL = id; return nil }), []byte(u), []byte(p))
+				if gotP != want || gotL != want {
+					kind := "wrong-credentials-accepted"
+					if want {
+						kind = "current-password-refused"
+					}
+					r.Violation("C14:regexpmap:"+kind, fmt.Sprintf("full_match %s: PLAIN=%v LOGIN=%v for user %q password %q; the map sends it to account %q (exists: %v), reference %v", full, gotP, gotL, u, p, mapped, ref[mapped] != "", want), c)
+					return
+				}
+				if want {
+					r.Outcome("accepted")
+				} else {
+					r.Outcome("refused")
+				}
+				_, _ = idP, idL
 			}
 		}
 	}
